@@ -84,6 +84,20 @@ fn main() {
             let script = std::fs::read_to_string(&path).expect("read script");
             cache::replay_script(&mut out, &script);
         }
+        // C18: key builders
+        "keys" => keys::keys_trace(&mut out, &mut rng, ops),
+        // C19: sync vs async differential
+        "flavour" => {
+            let scripts = arg_u64(&args, "--scripts", 12) as usize;
+            let r = flavour::differential(&mut rng, scripts, ops);
+            out.line(&format!(
+                "flavour scripts={} steps={} mismatches={} seed_mismatch={} detail={}",
+                r.scripts, r.steps, r.mismatches, r.skipped_seed_mismatch,
+                if r.detail.is_empty() { "-".to_string() } else { r.detail.replace(' ', "_") }
+            ));
+            out.flush();
+            std::process::exit(0);
+        }
         // live mode: real threads, implementation-vs-oracle tests
         "live" => {
             let rounds = arg_u64(&args, "--rounds", 200);
